@@ -108,6 +108,8 @@ func TestC06(t *testing.T) {
 						run(desc, reqs)
 					}
 				}
+				// dir-size of a directory with symlinks (followed by design; dangling ones contribute nothing)
+				run(desc, []Req{mkReq(opGetDirSize, "/L"), mkReq(opStatFile, "/L"), mkReq(opGetDirSize, "/")})
 				// re-open in the middle of an enumeration restarts it
 				run(desc, []Req{mkReq(opOpenDir, "/L"), noargReq(opReadDirEntry), mkReq(opOpenDir, "/L"), noargReq(opReadDir), noargReq(opReadDirEntry)})
 			}
